@@ -83,6 +83,13 @@ theorem refines_flush_emit (s : St) (h : s.ok) (e : Element) : Refines s ((flush
      exact this hi⟩
 
 
+theorem emitRun_refines (run : Str) (s : St) (h : s.ok) : Refines s (emitRun run s) (runAtoms run) := by
+  unfold emitRun runAtoms
+  split
+  · have := refines_flush_emit s h (.para (trim run))
+    simpa [Element.atoms] using this
+  · exact Refines.rfl' s h
+
 theorem liHead_refines (kids : List Dom) (s : St) (hin : s.inList = true) :
     (liHead kids s).flat = s.flat ++ (if getDirectTextContent kids != [] then [Atom.item s.level (getDirectTextContent kids)] else []) ∧
     (liHead kids s).inList = true ∧ (liHead kids s).level = s.level + 1 := by
@@ -182,7 +189,7 @@ theorem trav_refines (p : Pos → Dom → Bool) (w : Bool) :
               have := h1.trans (refines_flush_emit _ h1.ok (.para (trim (getTextContent (.elem tag attrs kids)))))
               simpa [Element.atoms] using this
             · simp only [hcnd, if_false, Bool.false_eq_true]
-              have h2 := travL_refines p w kids (pos.kid w tag) _ h1.ok
+              have h2 := travM_refines p w kids (pos.kid w tag) [] _ h1.ok
               rw [h1.lc] at h2
               simpa using h1.trans h2
           | list ord =>
@@ -306,6 +313,22 @@ theorem travLi_refines (p : Pos → Dom → Bool) (w : Bool) :
         exact h1.trans h2
       · simp only [hk, if_false, Bool.false_eq_true, List.nil_append]
         exact travLi_refines p w ks kp s h
+theorem travM_refines (p : Pos → Dom → Bool) (w : Bool) :
+    ∀ (ts : List Dom) (kp : Pos) (run : Str) (s : St), s.ok →
+      Refines s (travM p w kp ts run s) (atomsM p w kp s.lc ts run)
+  | [], kp, run, s, h => by simp only [travM, atomsM]; exact emitRun_refines run s h
+  | k :: ks, kp, run, s, h => by
+      simp only [travM, atomsM]
+      by_cases hk : isInline k = true
+      · simp only [hk, if_true]
+        exact travM_refines p w ks kp _ s h
+      · simp only [hk, if_false, Bool.false_eq_true]
+        have h0 := emitRun_refines run s h
+        have h1 := trav_refines p w k kp _ h0.ok
+        rw [h0.lc] at h1
+        have h2 := travM_refines p w ks kp [] _ h1.ok
+        rw [h1.lc, h0.lc] at h2
+        exact (h0.trans h1).trans h2
 end
 
 end Tabula.Html
